@@ -22,6 +22,7 @@ import Arca.Proofs.Outputs
 import Arca.Gen.Outputs
 import Arca.Expected.Outputs
 import Arca.Pins.workflow_workflow__serializedOutput
+import Arca.Props.C08Infer
 
 namespace Arca.Props.C08
 open Arca.Model Arca.Proofs.Outputs
